@@ -67,6 +67,7 @@ type c19Case struct {
 	Pre        []c19Pre  `json:"pre,omitempty"`
 	Unrel      []string  `json:"unrel,omitempty"`
 	StepWait   bool      `json:"sw,omitempty"` // wait for quiescence after every single record
+	TZ         int       `json:"tz,omitempty"`  // local time zone, minutes east of UTC (names are formatted in local time)
 	Via        bool      `json:"via,omitempty"` // build the writer through logx.createOutput and the package options
 	Steps      []c19Step `json:"steps"`
 }
@@ -306,6 +307,12 @@ func c19Run(c c19Case, root string, r *c19Result) {
 		failf("setup: %v", err)
 		return
 	}
+	if c.TZ != 0 {
+		saved := time.Local
+		time.Local = time.FixedZone("verif", c.TZ*60)
+		defer func() { time.Local = saved }()
+		r.classes["non-UTC-zone"] = true
+	}
 	time.Sleep(time.Duration(c.T0) * time.Second)
 	start := time.Now()
 
@@ -532,6 +539,11 @@ func c19Run(c c19Case, root string, r *c19Result) {
 					what, name, c.Days, now.Format(time.RFC3339), c.MaxBackups)
 				return false
 			}
+			if c.Days > 0 && e.older(pf.t, now, c.Days) {
+				r.classes["removed-by-age"] = true
+			} else {
+				r.classes["removed-by-count"] = true
+			}
 			if _, ok := pre[name]; ok {
 				r.preGone++
 				r.classes["pre-existing-backup-removed"] = true
@@ -659,6 +671,15 @@ func c19Run(c c19Case, root string, r *c19Result) {
 					continue
 				}
 				n++
+				if c.Days > 0 && !e.older(f.t, now, c.Days) {
+					edge := f.t.Add(time.Duration(c.Days) * 24 * time.Hour)
+					if c.Rule == "daily" {
+						edge = c19Day(f.t).AddDate(0, 0, c.Days)
+					}
+					if (c.Rule == "daily" && edge.Equal(c19Day(now))) || (c.Rule == "size" && edge.Equal(now.Truncate(time.Second))) {
+						r.classes["kept-exactly-at-retention-boundary"] = true
+					}
+				}
 				if c.Days > 0 && e.older(f.t, now, c.Days+1) {
 					failf("%s: backup %s is more than a day older than the %d retention day(s) at %s and survived the clean-up",
 						what, f.name, c.Days, now.Format(time.RFC3339))
@@ -773,6 +794,7 @@ func c19Gen(rt *rapid.T) c19Case {
 	c.Base = rapid.SampledFrom([]string{"access.log", "svc", "a.b.log"}).Draw(rt, "base")
 	c.T0 = rapid.SampledFrom([]int64{0, 0, 1, 3600, 43200, 86398, 86399}).Draw(rt, "t0")
 	c.StepWait = rapid.Bool().Draw(rt, "stepWait")
+	c.TZ = rapid.SampledFrom([]int{0, 0, 0, 480, -330, 765}).Draw(rt, "tz")
 	if c.Delim == backupFileDelimiter && c.Compress == c.Gzip {
 		c.Via = rapid.Bool().Draw(rt, "via")
 	}
@@ -907,6 +929,6 @@ func c19Gen(rt *rapid.T) c19Case {
 }
 
 func TestVerif_C19_rotate(t *testing.T) {
-	kit.Run(t, "C19", "rotate-history", kit.Opts{Quick: 1500, Thorough: 40000}, c19Gen,
+	kit.Run(t, "C19", "rotate-history", kit.Opts{Quick: 1000, Thorough: 32000}, c19Gen,
 		func(c c19Case) kit.Verdict { return c19Interp(t, c) })
 }
